@@ -311,7 +311,8 @@ impl Value {
             (Value::Float(x), Value::Float(y)) => float_f(&mut x.0, y.0),
             (Value::Interval(x), Value::Interval(y)) => interval_f(x, *y),
             (x @ Value::Null, Value::Int(y)) => { *x = Value::Int(*y) },
-            (x @ Value::Null, Value::Float(y)) => { *x = Value::Float(*y) },
+            // (like a sum that started at 0.0: a first value of -0.0 gives 0.0 whether or not NULLs came before it)
+            (x @ Value::Null, Value::Float(y)) => { *x = Value::Float(Float(0.0 + y.0)) },
             (x @ Value::Null, Value::Interval(y)) => { *x = Value::Interval(*y) },
             // INT and REAL mixed (e.g. the branches of a CASE): continue as REAL instead of ignoring the value
             (Value::Float(x), Value::Int(y)) => float_f(&mut x.0, *y as f64),
